@@ -495,8 +495,9 @@ def densityCtor (a : CtorArgs) : Outcome CtorArgs := do
   let gpType ← gpFromString a.gpType
   let nnDistances ← ctorNN a.nnDistances
   let mu ← validateFloat a.mu true
-  let ls ← validatePositiveFloat a.ls true false
-  let lsFactor ← validatePositiveFloat a.lsFactor false false
+  -- ls / ls_factor: `allow_inf=True` (the constant-kernel limit is a legal length scale)
+  let ls ← validatePositiveFloat a.ls true true
+  let lsFactor ← validatePositiveFloat a.lsFactor false true
   let lp ← validateArray a.lp true Option.none
   let l ← validateArray a.l true Option.none
   let d ← validateFloatOrIterable a.d true true
